@@ -45,7 +45,7 @@ func UnmarshalIntID(v any) (int, error) {
 	case int:
 		return v, nil
 	case int64:
-		return int(v), nil
+		return safeCastInt(v)
 	case json.Number:
 		return strconv.Atoi(string(v))
 	default:
@@ -63,7 +63,10 @@ func UnmarshalUintID(v any) (uint, error) {
 	switch v := v.(type) {
 	case string:
 		result, err := strconv.ParseUint(v, 10, 64)
-		return uint(result), err
+		if err != nil {
+			return 0, err
+		}
+		return safeCastUint(result)
 	case int:
 		if v < 0 {
 			return 0, newUintSignError(strconv.FormatInt(int64(v), 10))
@@ -73,7 +76,7 @@ func UnmarshalUintID(v any) (uint, error) {
 		if v < 0 {
 			return 0, newUintSignError(strconv.FormatInt(v, 10))
 		}
-		return uint(v), nil
+		return safeCastUint(uint64(v))
 	case int32:
 		if v < 0 {
 			return 0, newUintSignError(strconv.FormatInt(int64(v), 10))
@@ -82,10 +85,13 @@ func UnmarshalUintID(v any) (uint, error) {
 	case uint32:
 		return uint(v), nil
 	case uint64:
-		return uint(v), nil
+		return safeCastUint(v)
 	case json.Number:
 		result, err := strconv.ParseUint(string(v), 10, 64)
-		return uint(result), err
+		if err != nil {
+			return 0, err
+		}
+		return safeCastUint(result)
 	default:
 		return 0, fmt.Errorf("%T is not an uint", v)
 	}
